@@ -96,15 +96,31 @@ def judge(chk, results, relevant, signature):
         for d in rel:
             sig = signature(d, hist)
             stats["divergences"][sig] = stats["divergences"].get(sig, 0) + 1
-            chk.classify(sig, {"sql": describe(hist), "history": short(hist), "divergence": d})
+            chk.classify(sig, {"sql": describe(hist), "history": short(hist), "divergence": d, "hist": hist, "replay_args": getattr(chk, "replay_args", {})})
     stats["distinct_histories"] = len(nontrivial)
     return stats
+
+
+def replay_file(chk, path, relevant, signature):
+    """bin/check CNN --replay <file>: re-executes the stored behaviour on the current tree and judges its last step."""
+    rep = json.load(open(path))["replay"]
+    vlib.build_harness()
+    a = rep.get("replay_args", {})
+    res = replay(chk, [{"hist": rep["hist"]}], schema=a.get("schema", "pk"), config_ops=a.get("config_ops"), reopen_ops=a.get("reopen_ops"))
+    st = judge(chk, res, relevant, signature)
+    print("replayed: %s" % rep["sql"])
+    for hist, divs in res:
+        for d in divs:
+            print("  divergence: %s" % json.dumps(d)[:600])
+    chk.cov = {"states": 1, "transitions": len(rep["hist"]), "traces_validated_against_impl": 1, "samples": [rep["sql"]], "replay_of": path}
+    return chk.finish()
 
 
 def standard(chk, relevant, signature, focus=None, with_txn=False, with_reopen=True, schema="pk", config_ops=None,
              reopen_ops=None, quick=(3, 3500), thorough=(4, 60000), walks_quick=(40, 25), walks_thorough=(600, 40), extra_assumptions=()):
     """The common shape of a Relational.tla check: per-transition enumeration + random walks, replay, judge."""
     thorough_tier = chk.tier == "thorough"
+    chk.replay_args = {"schema": schema, "config_ops": config_ops, "reopen_ops": reopen_ops}
     chk.assumptions += ["domain: id in 1..3, a in {NULL,1,2}, b in {NULL,0,1,5}; table t(id INT PRIMARY KEY, a INT UNIQUE, b INT NOT NULL CHECK (b < 3))",
                         "each behaviour judges its LAST step; the prefix must follow the model (otherwise the behaviour is abandoned and counted)",
                         "SQL renderer and result normaliser in lib/relational.py are trusted"] + list(extra_assumptions)
